@@ -16,7 +16,9 @@
 (*  "sched"  ticks: the live ticker of a task started at `start` and the loop  *)
 (*           of Queries(start, stop) built on ticker.Next; both turn a tick    *)
 (*           into the range [tick-offset-period, tick-offset).                 *)
-(*  "dbrp"   checkDBRPs: queries are issued only if every source is declared.  *)
+(*  "dbrp"   checkDBRPs: the batch source has one child per |query (InfluxQL)  *)
+(*           or |queryFlux node; BatchNode.DBRPs collects the sources of the    *)
+(*           InfluxQL children; queries are issued only if all are declared.    *)
 (*                                                                             *)
 (* Time is in whole model units (seconds in the harness).  Conditions are      *)
 (* evaluated on a doubled time axis (tt = 2t, 2t+1) so that  time > v  and      *)
@@ -33,10 +35,11 @@ CONSTANTS
     Base,           \* first start time explored (a multiple of every `every`)
     SpanLens,       \* set of stop-start values explored
     DBRPs,          \* universe of database/retention-policy names
-    SourceLists,    \* set of sequences over DBRPs: the FROM clause(s) of the task's queries
+    ChildLists,     \* set of sequences of children of the batch source: [kind: "ql"|"flux", srcs: Seq(DBRPs)]
     WrapUser,       \* NewQuery parenthesises the user's condition         (TRUE = repaired code)
     TruncNext,      \* aligned timeTicker.Next truncates like the live one  (TRUE = repaired code)
-    CloneSharesGB   \* Clone keeps the group-by literals inside the cloned statement (TRUE = repaired code)
+    CloneSharesGB,  \* Clone keeps the group-by literals inside the cloned statement (TRUE = repaired code)
+    FluxEndsCollection \* BatchNode.DBRPs stops collecting at the first Flux child (FALSE = the code; TRUE = seeded defect)
 
 ----------------------------------------------------------------------------
 (* Condition trees *)
@@ -229,11 +232,11 @@ VARIABLES
     sch, span,              \* task settings; BatchQueries(start, stop) arguments
     cur, hist, hdone,       \* Queries() loop: `current`, the list built so far, loop left
     lprev, live, ldone,     \* live ticker started at span.start: last tick, queries issued, passed span.stop
-    declared, sources, issued, refused
+    declared, children, issued, refused
 
 qvars == <<user, q, c, qT, cT, nops>>
 svars == <<sch, span, cur, hist, hdone, lprev, live, ldone>>
-dvars == <<declared, sources, issued, refused>>
+dvars == <<declared, children, issued, refused>>
 vars  == <<mode, qvars, svars, dvars>>
 
 
@@ -242,7 +245,7 @@ Init ==
     /\ user = None /\ q = NoQ /\ c = NoQ /\ qT = <<ZeroT, ZeroT>> /\ cT = <<ZeroT, ZeroT>> /\ nops = 0
     /\ sch = NoSched /\ span = NoSpan /\ cur = 0 /\ hist = <<>> /\ hdone = TRUE
     /\ lprev = 0 /\ live = <<>> /\ ldone = TRUE
-    /\ declared = {} /\ sources = <<>> /\ issued = {} /\ refused = FALSE
+    /\ declared = {} /\ children = <<>> /\ issued = {} /\ refused = FALSE
 
 (* ---- Query object ---- *)
 NewQuery(u) ==
@@ -291,12 +294,23 @@ LiveTick ==
 
 (* ---- DBRPs: StartBatching / BatchQueries both run checkDBRPs first ---- *)
 SrcSet(srcs) == { srcs[i] : i \in DOMAIN srcs }
-Allowed(decl, srcs) == SrcSet(srcs) \subseteq decl
-StartBatch(decl, srcs) ==
+Child(kind, srcs) == [kind |-> kind, srcs |-> srcs]
+(* BatchNode.DBRPs: walk the children in order; an InfluxQL child contributes the *)
+(* sources of its statement, a Flux child has none.                                *)
+RECURSIVE Collect(_), AllQL(_)
+Collect(ch) == IF ch = <<>> THEN <<>>
+               ELSE IF Head(ch).kind = "flux" THEN (IF FluxEndsCollection THEN <<>> ELSE Collect(Tail(ch)))
+               ELSE Head(ch).srcs \o Collect(Tail(ch))
+(* what the InfluxQL children will query once they run *)
+AllQL(ch) == IF ch = <<>> THEN <<>>
+             ELSE IF Head(ch).kind = "flux" THEN AllQL(Tail(ch)) ELSE Head(ch).srcs \o AllQL(Tail(ch))
+Allowed(decl, ch) == SrcSet(Collect(ch)) \subseteq decl          \* checkDBRPs
+AllDeclared(decl, ch) == SrcSet(AllQL(ch)) \subseteq decl        \* what the property demands
+StartBatch(decl, ch) ==
     /\ mode = "idle" /\ mode' = "dbrp"
-    /\ declared' = decl /\ sources' = srcs
-    /\ IF Allowed(decl, srcs) THEN issued' = SrcSet(srcs) /\ refused' = FALSE
-                              ELSE issued' = {} /\ refused' = TRUE
+    /\ declared' = decl /\ children' = ch
+    /\ IF Allowed(decl, ch) THEN issued' = SrcSet(AllQL(ch)) /\ refused' = FALSE
+                            ELSE issued' = {} /\ refused' = TRUE
     /\ UNCHANGED <<qvars, svars>>
 
 (* The user's WHERE clause is text: every tree of Trees(MaxDepth) is printed and  *)
@@ -320,7 +334,7 @@ Next ==
     \/ mode = "idle" /\ \E s \in Schedules : \E p \in 0..((IF s.kind = "cron" THEN s.p ELSE s.every) - 1), n \in SpanLens :
           StartSpan(s, Base + p, Base + p + n)
     \/ HistStep \/ LiveTick
-    \/ mode = "idle" /\ \E d \in SUBSET DBRPs, srcs \in SourceLists : StartBatch(d, srcs)
+    \/ mode = "idle" /\ \E d \in SUBSET DBRPs, ch \in ChildLists : StartBatch(d, ch)
 Spec == Init /\ [][Next]_vars
 
 ----------------------------------------------------------------------------
@@ -351,7 +365,7 @@ RangeFromTick ==
             /\ live[i].e + sch.offset > span.start /\ live[i].e + sch.offset <= span.stop
             /\ i > 1 => live[i].e > live[i - 1].e
 OnlyDeclaredDBRPs == issued \subseteq declared
-RefusedIffUndeclared == mode = "dbrp" => (refused <=> ~Allowed(declared, sources))
+RefusedIffUndeclared == mode = "dbrp" => (refused <=> ~AllDeclared(declared, children))
 
 TypeOK ==
     /\ mode \in {"idle", "query", "sched", "dbrp"}
